@@ -10,6 +10,7 @@ TRUSTED = [
     "translator vplib/translate/gen_window.py (std.sql.prql and std.prql through prqlc's own parser; scanners over the `window` arm of semantic/resolver/transforms.rs incl. its empty-range rejection loop, translate_windowed / try_into_window_frame of sql/gen_expr.rs, Complexity / infer_complexity / can_materialize / get_requirements of sql/pq/anchor.rs, reorder of sql/pq/preprocess.rs; the save / overwrite / write-back of the partition and window fields in flatten.rs (every use of the two fields is accounted for) and shape checks of lowering.rs; fail closed) and vplib/translate/gen_split.py (is_split_required)",
     "SPECIFICATION of SQL window frames in coq/Model/Frame.v (sql_frame_segment: ROWS by position, RANGE by peers / key distance, the implicit frame of an OVER without frame clause; sframe_ok) and of where SQL admits a window function (Model/WindowFns.v sql_admits_window) -- hand-written, validated against SQLite by the end-to-end streams",
     "reference semantics coq/Model/Rel.v + Model/Value.v (C01) and its extension Model/Window.v (rank_dense, window columns over all 12 functions) = formalisation of the documented meaning (book: reference/stdlib/transforms/window.md)",
+    "hook `verif:lowerer_op` of /repo (120eb8c + hooks/lowerer-window.diff: window_set / window_take / window_reset, needs_window of every new Compute): the order of the log lines is the order of the operations",
     "hook `verif:split_off_back` of /repo (3aa4f6d): the pipeline and output columns it prints are what the call read, `remaining_len` where it stopped; translated to Model/WinAtomic.v items by c04_hooks.sob_item (kinds, column ids of expressions, infer_complexity re-derived from the printed expression)",
     "hook `verif:preprocess` of /repo (cfg prqlc_verif, commit 8fb8a9c): what it prints of reorder's input and output pipelines (kind of every transform, infer_complexity of every Compute) is taken for what the function read and returned",
     "end-to-end oracle: window program builder vplib/rel/wingen.py (+ vplib/rel/prog.py), harness (prqlc::compile, prqlc::pl_to_rq, rusqlite bundled SQLite), comparison in vplib/rel/run.py",
@@ -66,6 +67,7 @@ def run():
     ev, n_comp, n_ok = H.collect_all(pairs)
     H.run_reorder(ck, None, events=(ev["verif:preprocess "], n_comp, n_ok))
     H.run_split(ck, None, events=(ev["verif:split_off_back "], n_comp, n_ok))
+    H.run_lowerer(ck, (ev["verif:lowerer_op "], n_comp, n_ok))
 
     ck.proof_broken_violation(found_input=bool(ck.violations))
     ck.assumptions += [
@@ -82,6 +84,7 @@ def run():
               "scope-corr = 13 directed + random nestings (depth <= 4) of group / window / join-argument bodies: model scope_run (partition, frame per column) vs RQ Compute.window and vs the OVER text. "
               "reorder-corr = every call of preprocess.rs reorder during the compiles of all streams + directed programs (hook verif:preprocess): Model/WinReorder.v reorder on the (kind, complexity) abstraction of the input vs the output the implementation returned, item by item. "
               "split-corr = every call of anchor.rs split_off_back during the same compiles (hook verif:split_off_back): the number of transforms Model/WinAtomic.v walk keeps in the SELECT vs where the implementation stopped; a difference is a violation when a windowed column definition lies at or between the two stopping points, counted otherwise. "
+              "lower-corr = per compile, the trace of the Lowerer's window field and of every new Compute (hook verif:lowerer_op) replayed by Model/WinLower.v lreplay; a column that needs a window and is handed none is judged against the specification (F51 when it is a sort key / partition column of its transform call). "
               "End-to-end streams (each case = program x instance x target): frames = partition {none,g} x 9 sort modes x every frame x 3 of the 12 functions per program (quick: every frame under the modes id and c, a sample elsewhere; thorough: all, 4 function triples); first-last = first/last under every frame class; "
               "placement = derive/select/filter/sort-by-value x context before (filter/take/group-aggregate = an earlier SELECT) and after (filter/take/aggregate/group-aggregate/derive/second window); empty-range = rows/range arguments with start > end (expected: the modelled compile error; 0..-1: F54); sort-key = a window function written directly as sort key; random = prog.Gen pipelines with window steps over all functions/frames. "
               "distinct = hash of (program, target, instance); non-trivial = non-empty result or a failure")
